@@ -1,7 +1,8 @@
 import SaModel.Lemmas.C18OwnPush
 import SaModel.Lemmas.C18Assembled
 import SaModel.Lemmas.C01CompSmall
-import SaModel.Props.C01Refine
+import SaModel.Lemmas.C01ObsComp
+import SaModel.Props.C01Obs
 import SaModel.Spec.Blame
 /-
 C18, blame against the SPECIFICATION (`Spec.blameDT`): vocabulary.
@@ -10,7 +11,7 @@ C18, blame against the SPECIFICATION (`Spec.blameDT`): vocabulary.
                       repo fix ca6f255 a `None` for a non-nullable dictionary column is refused by the dictionary
                       builder itself, under the column's path, not by its key builder under `{p}.key`)
   `At path dt n md b` `b` is a (later) state of the builder `build_builder` creates at `path` for a field of type `dt`
-  `Kids…`             the children of a struct / union state, each `Good` and `At` its own path
+  `Kids…`             the children of a struct / union state, each `GoodH` and `At` its own path
 -/
 namespace SaModel.Props.C18
 open SaModel SaModel.Build SaModel.Spec
@@ -119,11 +120,11 @@ theorem At.fixedSizeList {path cn cdt cnl cmd k n md p fm m len v cur el}
     simp only [takeRest, B.fixedSizeList.injEq] at ht
     exact ⟨el0, hel0, ht.2.2.2.2.2.2⟩
 
-/-- struct children: child `j` is `Good` for field `j` and sits at `{path}.{name j}` (raw name) -/
+/-- struct children: child `j` is `GoodH` for field `j` and sits at `{path}.{name j}` (raw name) -/
 def Kids (path : String) : BL → Fields → Prop
   | .nil, .nil => True
   | .cons b m r, .cons (.mk fname fdt fn fmd) rest =>
-    m.name = fname ∧ m.nullable = fn ∧ Good b fdt fn fmd ∧ At (path ++ "." ++ fname) fdt fn fmd b ∧ Kids path r rest
+    m.name = fname ∧ m.nullable = fn ∧ GoodH b fdt fn fmd ∧ At (path ++ "." ++ fname) fdt fn fmd b ∧ Kids path r rest
   | .nil, .cons _ _ => False
   | .cons _ _ _, .nil => False
 
@@ -131,12 +132,12 @@ def Kids (path : String) : BL → Fields → Prop
 def KidsU (path : String) : BL → UFields → Prop
   | .nil, .nil => True
   | .cons b _ r, .cons _ (.mk fname fdt fn fmd) rest =>
-    Good b fdt fn fmd ∧ At (path ++ "." ++ childName fname) fdt fn fmd b ∧ KidsU path r rest
+    GoodH b fdt fn fmd ∧ At (path ++ "." ++ childName fname) fdt fn fmd b ∧ KidsU path r rest
   | .nil, .cons _ _ _ => False
   | .cons _ _ _, .nil => False
 
 theorem newFields_at (path : String) : ∀ (sfs : Fields) (bl0 : BL) (fs : BL), newFields path sfs = .ok bl0 →
-    takeRestAll fs = takeRestAll bl0 → ∀ (len : Nat), WFL fs len → SafeL fs → ShapeL fs sfs → totalFs sfs = true →
+    takeRestAll fs = takeRestAll bl0 → ∀ (len : Nat), WFHL fs len → NoDictKeyL fs → ShapeL fs sfs → totalFs sfs = true →
     Kids path fs sfs
   | .nil, bl0, fs, h0, ht, _, _, _, hsl, _ => by
     cases fs with
@@ -152,15 +153,15 @@ theorem newFields_at (path : String) : ∀ (sfs : Fields) (bl0 : BL) (fs : BL), 
       cases h0
       simp only [takeRestAll, BL.cons.injEq] at ht
       simp only [ShapeL] at hsl
-      simp only [WFL] at hw
-      simp only [SafeL] at hs
+      simp only [WFHL] at hw
+      simp only [NoDictKeyL] at hs
       simp only [totalFs, totalF, Bool.and_eq_true] at htot
       exact ⟨hsl.1, hsl.2.1, ⟨hw.1, hs.1, hsl.2.2.1, htot.1⟩, ⟨b0, hb0, ht.1⟩,
         newFields_at path rest r0 r hr0 ht.2.2 len hw.2.2 hs.2 hsl.2.2.2 htot.2⟩
 
 theorem Kids.get {path : String} : ∀ {fs : BL} {sfs : Fields} {j : Nat} {c : B} {m : FieldMeta}, Kids path fs sfs →
     fs.get? j = some (c, m) → ∃ f, sfs.toList[j]? = some f ∧ m.name = f.name ∧ m.nullable = f.nullable ∧
-      Good c f.dataType f.nullable f.metadata ∧ At (path ++ "." ++ f.name) f.dataType f.nullable f.metadata c
+      GoodH c f.dataType f.nullable f.metadata ∧ At (path ++ "." ++ f.name) f.dataType f.nullable f.metadata c
   | .nil, _, _, _, _, _, h => by simp [BL.get?] at h
   | .cons b m r, .nil, _, _, _, hk, _ => by simp [Kids] at hk
   | .cons b m r, .cons (.mk fname fdt fn fmd) rest, 0, c, m', hk, h => by
@@ -176,7 +177,7 @@ theorem Kids.get {path : String} : ∀ {fs : BL} {sfs : Fields} {j : Nat} {c : B
 
 theorem Kids.set {path : String} : ∀ {fs : BL} {sfs : Fields} {j : Nat} {c c' : B} {m : FieldMeta} {f : Field},
     Kids path fs sfs → fs.get? j = some (c, m) → sfs.toList[j]? = some f →
-    Good c' f.dataType f.nullable f.metadata → At (path ++ "." ++ f.name) f.dataType f.nullable f.metadata c' →
+    GoodH c' f.dataType f.nullable f.metadata → At (path ++ "." ++ f.name) f.dataType f.nullable f.metadata c' →
     Kids path (fs.set j c') sfs
   | .nil, _, _, _, _, _, _, _, h, _, _, _ => by simp [BL.get?] at h
   | .cons b m r, .nil, _, _, _, _, _, hk, _, _, _, _ => by simp [Kids] at hk
@@ -200,9 +201,9 @@ theorem Kids.names {path : String} : ∀ {fs : BL} {sfs : Fields}, Kids path fs 
     simp only [Kids] at h
     simp only [BL.names, Fields.toList, List.map_cons, h.1, Kids.names h.2.2.2.2]; rfl
 
-/-- the struct state of `Good` / `At`: children -/
+/-- the struct state of `GoodH` / `At`: children -/
 theorem At.struct_kids {path sfs n md p len v fs cached next seen}
-    (hg : Good (.struct p len v fs cached next seen) (.struct sfs) n md)
+    (hg : GoodH (.struct p len v fs cached next seen) (.struct sfs) n md)
     (h : At path (.struct sfs) n md (.struct p len v fs cached next seen)) : Kids path fs sfs := by
   obtain ⟨b0, h0, ht⟩ := h
   simp only [newDT] at h0
@@ -213,15 +214,15 @@ theorem At.struct_kids {path sfs n md p len v fs cached next seen}
   · cases h0
     simp only [takeRest, B.struct.injEq] at ht
     have hw := hg.wf
-    simp only [WFB] at hw
-    have hs := hg.safe
-    simp only [Safe] at hs
+    simp only [WFH] at hw
+    have hs := hg.nd
+    simp only [NoDictKey] at hs
     have hsh := hg.shape
     simp only [Shape] at hsh
     obtain ⟨_, sfs', he, hsl⟩ := hsh
     cases he
     have htot := hg.tot
     simp only [total, Bool.and_eq_true] at htot
-    exact newFields_at path sfs bl0 fs hbl0 ht.2.2.2.1 len hw.2.1 hs.1 hsl htot.1
+    exact newFields_at path sfs bl0 fs hbl0 ht.2.2.2.1 len hw.2.1 hs hsl htot.1
 
 end SaModel.Props.C18
